@@ -208,6 +208,20 @@ func (vc *VC) evalDesignator(sc *Scope, d Expr) (out []modLoc, ok bool) {
 			}
 			return out, true
 		}
+		if id, isId := call.Fun.(EIdent); isId && id.Name == "maps" && len(call.Args) == 1 {
+			// maps(type(map[K]V)): the content of every map of that type
+			tt, isT := call.Args[0].(ETypeTag)
+			if !isT {
+				sfail("maps(type(map[K]V)) expected")
+			}
+			mt := sc.resolveType(tt.T)
+			if _, isMap := mt.Underlying().(*types.Map); !isMap {
+				sfail("maps() needs a map type")
+			}
+			dn, vn, ds, vs := env.mapHeaps(mt)
+			anyMap := func(r Term) Term { return True }
+			return []modLoc{{heap: dn, sort: ds, member: anyMap}, {heap: vn, sort: vs, member: anyMap}}, true
+		}
 	}
 	switch x := d.(type) {
 	case EField:
